@@ -161,6 +161,12 @@ def run(ctx):
     def harness(n, seed, tag, check_coq):
         recs, okrun, log = ctx.go_harness(PKG, ["zz_verif_frr_test.go", "zz_verif_gen_test.go"], "TestVerifFrr$", n=n, seed=seed,
                                           tag=tag, extra_overlay=frr_overlay(ctx))
+        # histories through the real NewSession / Set / Close (and NewSessionManager + debouncer + file)
+        recs2, okrun2, log2 = ctx.go_harness(PKG, ["zz_verif_frr_test.go", "zz_verif_gen_test.go"], "TestVerifFrrHist$",
+                                             n=max(20, (n * 2) // 5), seed=seed, tag=tag + "hist", extra_overlay=frr_overlay(ctx))
+        if not okrun2 and not any("does not build" in c for c in ctx.corr_broken):
+            ctx.corr_broken.append("harness TestVerifFrrHist failed: " + log2[-1500:])
+        recs = recs + recs2
         cases = [r for r in recs if r.get("t") == "case"]
         for c in cases:
             for s in c["in"]["sessions"]:
@@ -215,7 +221,8 @@ def run(ctx):
     st = state["stats"]
     if cases:
         for k in ("input_with_localpref_conflict", "unnumbered", "disable_mp", "neighbor_without_advertisement", "repeated_prefix",
-                  "adv_with_localpref", "large_community", "community", "neighbor_with_v4_and_v6", "multi_vrf", "multi_neighbor"):
+                  "adv_with_localpref", "large_community", "community", "neighbor_with_v4_and_v6", "multi_vrf", "multi_neighbor",
+                  "histories", "hist_set_ops", "hist_final_repeated_prefix", "histories_through_debouncer_and_file"):
             if st.get(k, 0) == 0:
                 raise Exception("generator degenerate: counter %s is zero: %r" % (k, st))
 
